@@ -400,6 +400,8 @@ def check(run):
         "floats are converted to micro-degrees by the engine (round(x*1e6)); serials are compared as strings",
         "mutations and random strings are exploration, not exhaustive",
         "an rtlsdr entry without device has no table form (TOML has no null): no string/table comparison",
+        "table forms: short for every kind; tcp { address, port } and websocket { url } long forms, each also "
+        "with two different `jump` hosts; the jump host is not part of the endpoint (serial must not depend on it)",
     ]
 
 
